@@ -1048,19 +1048,17 @@ func ConcScenarios(tier string) []Conc {
 	add(Conc{Name: "pingback/1x1req+query+reset", Tree: Leaf(KPingback), Prime: []Msg{seen}, Threads: [][]Msg{{seen}}, ReqOnly: true, Queries: 1, Reset: true})
 
 	// thorough tier
-	add(Conc{Name: "failure/2x1+query+reset", Tree: Leaf(KFailure), Prime: []Msg{unmet}, Threads: two, Queries: 1, Reset: true, Heavy: true})
+	add(Conc{Name: "failure/2x1req+query+reset", Tree: Leaf(KFailure), Prime: []Msg{unmet}, Threads: two, ReqOnly: true, Queries: 1, Reset: true, Heavy: true})
 	add(Conc{Name: "failure/2x2req+query", Tree: Leaf(KFailure), Threads: twoTwo, ReqOnly: true, Queries: 1, Heavy: true})
-	add(Conc{Name: "failure/2x2+query", Tree: Leaf(KFailure), Threads: twoTwo, Queries: 1, Heavy: true})
-	add(Conc{Name: "failure/3x1+query", Tree: Leaf(KFailure), Threads: three, Queries: 1, Heavy: true})
-	add(Conc{Name: "failure/2x1+2query", Tree: Leaf(KFailure), Threads: two, Queries: 2, Heavy: true})
+	add(Conc{Name: "failure/3x1req+query", Tree: Leaf(KFailure), Threads: three, ReqOnly: true, Queries: 1, Heavy: true})
+	add(Conc{Name: "failure/1x1+2query", Tree: Leaf(KFailure), Threads: one, Queries: 2, Heavy: true})
 	add(Conc{Name: "header/2x1+query", Tree: Leaf(KHeader), Threads: two, Queries: 1, Heavy: true})
 	add(Conc{Name: "status/2x1+query", Tree: Leaf(KStatus), Threads: two, Queries: 1, Heavy: true})
-	add(Conc{Name: "group(group(failure),failure)/2x1req+query", Tree: Group(Group(Leaf(KFailure)), Leaf(KFailure)), Threads: two, ReqOnly: true, Queries: 1, Heavy: true})
-	add(Conc{Name: "group(failure,failure)/1x1+query+reset", Tree: Group(Leaf(KFailure), Leaf(KFailure)), Prime: []Msg{unmet}, Threads: one, Queries: 1, Reset: true, Heavy: true})
-	add(Conc{Name: "filterTE(failure,failure)/2x1req+query+reset", Tree: fte, Prime: []Msg{viaTrue, unmet}, Threads: [][]Msg{{viaTrue}, {unmet}}, ReqOnly: true, Queries: 1, Reset: true, Heavy: true})
+	add(Conc{Name: "group(failure,failure)/1x1req+query+reset", Tree: Group(Leaf(KFailure), Leaf(KFailure)), Prime: []Msg{unmet}, Threads: one, ReqOnly: true, Queries: 1, Reset: true, Heavy: true})
+	add(Conc{Name: "filterTE(failure,failure)/1x1req+query+reset", Tree: fte, Prime: []Msg{viaTrue, unmet}, Threads: one, ReqOnly: true, Queries: 1, Reset: true, Heavy: true})
 	add(Conc{Name: "filterE(status)/1x1+query+reset", Tree: FilterE(Leaf(KStatus)), Prime: []Msg{unmet}, Threads: one, Queries: 1, Reset: true, Heavy: true})
 	add(Conc{Name: "filterT(status)/1x1+query+reset", Tree: FilterT(Leaf(KStatus)), Prime: []Msg{{Sel: 1}}, Threads: [][]Msg{{{Sel: 1}}}, Queries: 1, Reset: true, Heavy: true})
 	add(Conc{Name: "pingback/2x1req+query+reset", Tree: Leaf(KPingback), Prime: []Msg{seen}, Threads: [][]Msg{{seen}, {unmet}}, ReqOnly: true, Queries: 1, Reset: true, Heavy: true})
-	add(Conc{Name: "group(pingback,failure)/2x1req+query", Tree: Group(Leaf(KPingback), Leaf(KFailure)), Threads: [][]Msg{{seen}, {unmet}}, ReqOnly: true, Queries: 1, Heavy: true})
+	add(Conc{Name: "group(pingback,failure)/1x1req+query", Tree: Group(Leaf(KPingback), Leaf(KFailure)), Threads: [][]Msg{{seen}}, ReqOnly: true, Queries: 1, Heavy: true})
 	return out
 }
